@@ -583,6 +583,8 @@ where
     async fn event_loop(mut self, tx: oneshot::Sender<Result<(), Error>>) {
         let mut outcome = Ok(());
         loop {
+            #[cfg(fe2o3_amqp_verif)]
+            crate::verif::sched_point("connection.engine.iteration").await;
             let result = tokio::select! {
                 _ = self.heartbeat.next() => self.on_heartbeat().await,
                 incoming = self.transport.next() => {
